@@ -163,9 +163,13 @@ def owner_table_premise(ctx):
 
         def ob(self, rule, where, slot, ok, msg, detail=None,
                nontrivial=True, loc=None):
+            # (records-*: what clientDisconnected walks to take a dead
+            # connection out of the queues - a name not recorded on the
+            # caller leaves its connection in the queue after it is gone)
             if rule in ('C13.D2', 'C13.D4') and (
                     slot.startswith('row:') or slot.startswith('insert-') or
-                    slot.startswith('old-entry-')):
+                    slot.startswith('old-entry-') or
+                    slot.startswith('records-')):
                 ctx.ob('C14.D3', where, 'owner-table:' + slot, ok,
                        '[the routing table must hold the owner the clients '
                        'were told about] ' + msg, detail, nontrivial, loc)
